@@ -61,6 +61,10 @@ impl HasKey<PkeSecret> for V1 {
     fn decode(bytes: &[u8]) -> Result<PkeSecretKey, PasetoError> {
         use rsa::pkcs1::{DecodeRsaPrivateKey, EncodeRsaPrivateKey};
 
+        if super::has_trivial_prime(bytes) {
+            return Err(PasetoError::InvalidKey);
+        }
+
         let (key, is_der) = if let Ok(key) = rsa::RsaPrivateKey::from_pkcs1_der(bytes) {
             (key, true)
         } else {
